@@ -19,7 +19,7 @@ import (
 func init() {
 	fw.Register(&fw.Check{
 		ID: "C08", Level: "model_checking",
-		Rule: "(i) every closed selection of 1..2 (quick) / 1..3 (thorough) pool blocks x every contiguous run of complete top-level declarations, and of complete children of every implicitly nesting directive, moved into an included file (plain, in a sub-directory next to a same-named decoy, nested to depth 2, the same file included from two places when the run repeats); oracle: same verdict and byte-identical JSON as the unsplit document; (ii) ALL file-name strings of length <= 6 (quick) / 7 (thorough) over {. / \\ a}: validator vs the sentence of the property, and every name the sentence rejects run end to end with canary files outside the project directory; (iii) include cycles of length 1..3, missing file, directory, empty file, JSIGHT in an included file, each at top level / inside an implicit context / inside parentheses: rejected with a diagnostic; non-trivial = accepted unsplit document or rejected-by-sentence name; distinct = distinct projects",
+		Rule: "(i) every closed selection of 1..2 (quick) / 1..3 (thorough) pool blocks x every contiguous run of complete top-level declarations, and of complete children of every implicitly nesting directive, moved into an included file (plain, in a sub-directory next to a same-named decoy, nested to depth 2, the same file included from two places when the run repeats); oracle: same verdict and byte-identical JSON as the unsplit document; (ii) ALL file-name strings of length <= 6 (quick) / 7 (thorough) over {. / \\ a}: validator vs the sentence of the property, and every name the sentence rejects run end to end with canary files outside the project directory; (iii) include cycles of length 1..3, missing file, directory, empty file, JSIGHT in an included file (at every position of a file made of <= 3 declarations / nested INCLUDEs, and in the nested file), each at top level / inside an implicit context / inside parentheses: rejected with a diagnostic; non-trivial = accepted unsplit document or rejected-by-sentence name; distinct = distinct projects",
 		Assume: []string{"file access is observed through canary files placed beside and above the project directory (their content would show up in the catalog or change the verdict); 'unreadable' targets cannot be produced when the checks run as root"},
 		Run:    runC08, QuickCap: 8 * time.Minute, ThoroughCap: 40 * time.Minute,
 	})
@@ -308,6 +308,79 @@ func runC08(c *fw.Ctx) {
 			sc{pl + " no-parameter", drv.Project{Root: "root.jst", Files: map[string]string{"root.jst": mk("INCLUDE")}}},
 		)
 	}
+	// JSIGHT at every position of an included file: the file is any sequence of <= 3 items over
+	// {declaration, INCLUDE of a second file, INCLUDE of a third file}, the nested files are empty /
+	// a comment / a declaration, and the JSIGHT line stands in every slot of the first or of the
+	// second file (before, between and after includes that have already returned)
+	{
+		items := []string{"decl", "inc-u", "inc-v"}
+		uContents := []string{"", "# only a comment\n", "TYPE @inU any\n"}
+		var seq []string
+		var gen func(n int)
+		gen = func(n int) {
+			for ui, uc := range uContents {
+				hasU := false
+				for _, it := range seq {
+					if it == "inc-u" {
+						hasU = true
+					}
+				}
+				if !hasU && ui > 0 {
+					continue
+				}
+				render := func(jsightAt int) string {
+					var b strings.Builder
+					for i, it := range seq {
+						if i == jsightAt {
+							b.WriteString("JSIGHT 0.3\n")
+						}
+						switch it {
+						case "decl":
+							fmt.Fprintf(&b, "TYPE @inT%d any\n", i)
+						case "inc-u":
+							b.WriteString("INCLUDE u.jst\n")
+						case "inc-v":
+							b.WriteString("INCLUDE v.jst\n")
+						}
+					}
+					if jsightAt == len(seq) {
+						b.WriteString("JSIGHT 0.3\n")
+					}
+					return b.String()
+				}
+				for _, rootForm := range []string{"JSIGHT 0.3\nINCLUDE t.jst\n", "INCLUDE t.jst\n", "JSIGHT 0.3\nTYPE @x any\nINCLUDE t.jst\nTYPE @y any\n"} {
+					for at := 0; at <= len(seq); at++ {
+						scs = append(scs, sc{fmt.Sprintf("jsight-pos t=%v u=%d at=%d root=%d", seq, ui, at, len(rootForm)),
+							drv.Project{Root: "root.jst", Files: map[string]string{"root.jst": rootForm, "t.jst": render(at), "u.jst": uc, "v.jst": "TYPE @inV any\n"}}})
+					}
+					if hasU {
+						for _, up := range []string{"JSIGHT 0.3\n" + uc, uc + "JSIGHT 0.3\n"} {
+							scs = append(scs, sc{fmt.Sprintf("jsight-pos t=%v u=%d in-u root=%d", seq, ui, len(rootForm)),
+								drv.Project{Root: "root.jst", Files: map[string]string{"root.jst": rootForm, "t.jst": render(-1), "u.jst": up, "v.jst": "TYPE @inV any\n"}}})
+						}
+					}
+				}
+			}
+			if n == 0 {
+				return
+			}
+			for _, it := range items {
+				dup := false
+				for _, x := range seq {
+					if x == it && it != "decl" {
+						dup = true // the same file twice would be a second declaration of its type
+					}
+				}
+				if dup {
+					continue
+				}
+				seq = append(seq, it)
+				gen(n - 1)
+				seq = seq[:len(seq)-1]
+			}
+		}
+		gen(3)
+	}
 	for _, s := range scs {
 		if !c.Next() {
 			continue
@@ -319,7 +392,7 @@ func runC08(c *fw.Ctx) {
 		if !o.Rejected() {
 			o2, _ := dir.Run(s.p, opt, false)
 			if !o2.Rejected() {
-				c.Violate("bad-include-not-rejected", "C08:state:"+strings.SplitN(s.label, " ", 2)[1]+":"+o.Kind, fmt.Sprintf("%s: expected a diagnostic, got %s", s.label, o.Short()), map[string]interface{}{"project": s.p})
+				c.Violate("bad-include-not-rejected", "C08:state:"+stateSigOf(s.label)+":"+o.Kind, fmt.Sprintf("%s: expected a diagnostic, got %s", s.label, o.Short()), map[string]interface{}{"project": s.p})
 			}
 		}
 	}
@@ -362,4 +435,11 @@ func nthNode(nn []*doc.Node, k int) *doc.Node {
 		i++
 	})
 	return res
+}
+
+func stateSigOf(label string) string {
+	if strings.HasPrefix(label, "jsight-pos") {
+		return "jsight-in-included-file"
+	}
+	return strings.SplitN(label, " ", 2)[1]
 }
